@@ -84,6 +84,9 @@ Restart(h)    == mysql[h] = "down" /\ mysql' = [mysql EXCEPT ![h] = "up"] /\ Log
                  /\ UNCHANGED <<ha, casc, master, active, switch, maint, recov, inst, health, sqlerr, zkerr>>
 SetSql(v)     == sqlerr # v /\ sqlerr' = v /\ Log(Rec("sqlerr", "", v))
                  /\ UNCHANGED <<ha, casc, master, active, switch, maint, recov, inst, health, mysql, zkerr>>
+\* the client workload commits on every server that accepts writes (commits hang when no acker is left)
+Commit        == Log(Rec("commit", "", "all"))
+                 /\ UNCHANGED <<ha, casc, master, active, switch, maint, recov, inst, health, mysql, sqlerr, zkerr>>
 SetZk(v)      == zkerr # v /\ zkerr' = v /\ Log(Rec("zkerr", "", v))
                  /\ UNCHANGED <<ha, casc, master, active, switch, maint, recov, inst, health, mysql, sqlerr>>
 
@@ -98,6 +101,7 @@ Next == /\ Len(hist) < MaxLen
            \/ \E h \in Real, v \in HealthVals : SetHealth(h, v)
            \/ \E v \in SqlVals : SetSql(v)
            \/ \E v \in ZkVals : SetZk(v)
+           \/ Commit
 Spec == Init /\ [][Next]_vars
 
 \* behaviour export: one line per complete behaviour (always TRUE)
